@@ -52,6 +52,14 @@ func rankOf(salt, epoch int64, i, n int) int {
 
 // fitnessOf is a pure function of (program, epoch, index, genome): finite, non-negative, at most ~1e12.
 func fitnessOf(p FitnessProg, epoch, i, n int, g *genetics.Genome) float64 {
+	v := rawFitnessOf(p, epoch, i, n, g)
+	if v > 1.7e308 { // huge scales: stay finite
+		v = 1.7e308
+	}
+	return v
+}
+
+func rawFitnessOf(p FitnessProg, epoch, i, n int, g *genetics.Genome) float64 {
 	e := int64(epoch)
 	switch p.Kind {
 	case "zero":
@@ -103,6 +111,7 @@ type Scenario struct {
 	Epochs        int         `json:"epochs"`
 	Fit           FitnessProg `json:"fitness"`
 	Seed          int64       `json:"seed"`
+	ExcludedKnown string      `json:"excluded_known_finding,omitempty"` // the generator steered around a recorded finding (counted)
 }
 
 type ScenarioCfg struct {
@@ -114,6 +123,7 @@ type ScenarioCfg struct {
 	MaxPop       int
 	MinPop       int
 	MaxHidden    int
+	HugeFitness  bool // also draw fitness scales close to the largest finite float64 (sums overflow to +Inf)
 }
 
 func genScenario(cfg ScenarioCfg) *rapid.Generator[Scenario] {
@@ -134,6 +144,17 @@ func genScenario(cfg ScenarioCfg) *rapid.Generator[Scenario] {
 			Epochs: rapid.IntRange(1, cfg.MaxEpochs).Draw(t, "epochs"), Seed: int64(rapid.IntRange(0, 1<<30).Draw(t, "seed"))}
 		sc.Fit = FitnessProg{Kind: rapid.SampledFrom(cfg.FitnessKinds).Draw(t, "fitness program"),
 			Scale: rapid.SampledFrom([]float64{1, 1, 1, 0.01, 16, 1e6, 1e9, 1e-6, 1e-14, 1e-40}).Draw(t, "fitness scale"), Salt: int64(rapid.IntRange(0, 1<<20).Draw(t, "fitness salt"))}
+		if cfg.HugeFitness && rapid.IntRange(0, 7).Draw(t, "huge fitness") == 0 {
+			// fitness values close to the largest finite float64: their sum overflows to +Inf, which the apportionment
+			// survives through its "population died" fallback. Known finding (known_findings.txt, C02): when a single
+			// value times the age significance overflows, the turnover panics - that class is excluded by construction
+			// here (age significance forced to 1) and counted.
+			sc.Fit.Scale = rapid.SampledFrom([]float64{1e300, 1e305, 1e308}).Draw(t, "huge fitness scale")
+			if sc.Opts.AgeSignificance > 1 {
+				sc.Opts.AgeSignificance = 1
+				sc.ExcludedKnown = "fitness times age significance would overflow"
+			}
+		}
 		switch cfg.Parallel {
 		case 1:
 			sc.Opts.Parallel = rapid.IntRange(0, 3).Draw(t, "parallel") == 0
@@ -239,6 +260,9 @@ func runScenario(sc Scenario, h epochHooks, rec *Rec) error {
 	}
 	rec.Class("constructor:" + sc.Ctor)
 	rec.Class("fitness:" + sc.Fit.Kind)
+	if sc.ExcludedKnown != "" {
+		rec.Class("excluded by construction (known finding): " + sc.ExcludedKnown)
+	}
 	if sc.Opts.Parallel {
 		rec.Class("parallel executor")
 	} else {
